@@ -22,6 +22,9 @@ EXTRA = {  # seeds that other checks should see as well
     "C13-H": ["C02"], "C18-H": ["C09"], "C03-H": ["C05"], "C05-H": ["C12"],
     # round 5
     "C03-I": ["C17"], "C04-I": ["C17"], "C05-J": ["C12"], "C08-J": ["C09"], "C08-I": ["C09"], "C10-I": ["C01"], "C13-J": ["C01"],
+    # round 6
+    "C03-L": ["C04"], "C04-K": ["C08"], "C04-L": ["C17"], "C07-L": ["C11", "C12"], "C09-K": ["C12"], "C09-L": ["C02"], "C10-K": ["C08"],
+    "C10-L": ["C07"], "C11-L": ["C15"], "C13-K": ["C01"], "C03-K": ["C04"],
 }
 
 
